@@ -280,7 +280,7 @@ SubstCase(n, sd) ==
 
 \* ---------------------------------------------------------------- simplifier redexes (C07, C18)
 \* the left-hand sides of anthem's rewrite rules, instantiated with arbitrary sub-formulas and terms
-NRedex == 50
+NRedex == 56
 Redex(k, F, G, T, U, I, J) ==
   CASE k = 0 -> "(" \o F \o " and #true)"
     [] k = 1 -> "(#true and " \o F \o ")"
@@ -332,6 +332,12 @@ Redex(k, F, G, T, U, I, J) ==
     [] k = 47 -> "exists X (X = " \o T \o " and forall Y Y1 X$i (t(X, Y) -> " \o F \o "))"
     [] k = 48 -> "exists X Y (X = Y1 and Y = X and exists Y1 (t(X, Y1) and " \o F \o "))"
     [] k = 49 -> "exists X$s (X$s = S$s and exists S$s (t(X$s, S$s) and " \o F \o "))"
+    [] k = 50 -> "exists X$i S$s (X$i = " \o T \o " and S$s = " \o T \o " and " \o F \o ")"
+    [] k = 51 -> "exists S$s N$i (" \o F \o " and S$s = Y and p(S$s) and N$i = Y)"
+    [] k = 52 -> "(not " \o F \o " -> " \o F \o ")"
+    [] k = 53 -> "(" \o F \o " -> not " \o F \o ")"
+    [] k = 54 -> "((" \o F \o " -> " \o G \o ") -> " \o F \o ")"
+    [] k = 55 -> "(not not " \o F \o " -> " \o F \o ") and (" \o F \o " or not " \o F \o ")"
 RedexCase(n, sd) ==
   LET k == (n + Seed0) % NRedex
       f == Form(sd, 1, 1)
